@@ -2,7 +2,8 @@
 //!
 //! E-CRASH at node level.  For every history over {publish (awaited / not awaited), import an
 //! operation of a second author, receive one event, acknowledge the oldest received event} up to a
-//! length bound, for every prefix length k and both crash kinds (orderly drop of node and runtime;
+//! length bound (plus: import a body-less operation ingest rejects; import a valid body-less
+//! system operation), for every prefix length k and both crash kinds (orderly drop of node and runtime;
 //! `abort()`), a *child process* runs the first k steps on a real `p2panda::Node` with a file-backed
 //! database and reports what the application observed; the parent then inspects the database
 //! file and a second child re-opens the node and the topic stream from its frontier.  Oracle: the
@@ -23,7 +24,7 @@ use p2panda::streams::{StreamEvent, StreamFrom};
 use p2panda_core::cbor::encode_cbor;
 use p2panda_core::{Body, Hash, SigningKey, Topic};
 
-const STEPS: [char; 5] = ['P', 'p', 'I', 'R', 'A'];
+const STEPS: [char; 8] = ['P', 'p', 'I', 'R', 'A', 'X', 'Y', 'B'];
 
 fn topic() -> Topic {
     Topic::from([42u8; 32])
@@ -35,26 +36,23 @@ fn key_b() -> SigningKey {
     SigningKey::from_bytes(&[72; 32])
 }
 
-/// Author B's chain for the topic (imported operations).
-fn b_chain(n: u32) -> Vec<Operation> {
+/// The next operation of author B for the topic: `seq` / `backlink` as given, with or without a
+/// body (a body-less operation is a system-level one: never forwarded, always acknowledged).
+fn b_op(seq: u32, backlink: Option<Hash>, with_body: bool) -> Operation {
     let k = key_b();
-    let mut out: Vec<Operation> = vec![];
-    for s in 0..n {
-        let body = Body::new(&encode_cbor(&format!("from-b-{s}")).unwrap());
-        let mut header = p2panda::operation::Header {
-            version: 1,
-            verifying_key: k.verifying_key(),
-            signature: None,
-            payload_size: body.size(),
-            payload_hash: Some(body.hash()),
-            seq_num: s,
-            backlink: out.last().map(|o| o.hash),
-            extensions: Extensions::from_topic(topic()),
-        };
-        header.sign(&k);
-        out.push(Operation { hash: header.hash(), header, body: Some(body) });
-    }
-    out
+    let body = with_body.then(|| Body::new(&encode_cbor(&format!("from-b-{seq}")).unwrap()));
+    let mut header = p2panda::operation::Header {
+        version: 1,
+        verifying_key: k.verifying_key(),
+        signature: None,
+        payload_size: body.as_ref().map(|b| b.size()).unwrap_or(0),
+        payload_hash: body.as_ref().map(|b| b.hash()),
+        seq_num: seq,
+        backlink,
+        extensions: Extensions::from_topic(topic()),
+    };
+    header.sign(&k);
+    Operation { hash: header.hash(), header, body }
 }
 
 fn say(line: &str) {
@@ -76,9 +74,9 @@ pub fn child_main(args: &[String]) -> i32 {
     rt.block_on(async {
         let node = p2panda::builder().signing_key(key_a()).database_url(&format!("sqlite://{db}")).ack_policy(policy_of(policy)).spawn().await.expect("spawn");
         let (tx, mut rx) = node.stream::<String>(topic()).await.expect("stream");
-        let bchain = b_chain(8);
         let mut published = 0;
-        let mut imported = 0;
+        // author B's log as this node has accepted it so far
+        let (mut b_seq, mut b_last): (u32, Option<Hash>) = (0, None);
         let mut received: Vec<Hash> = vec![];
         let mut acked = 0usize;
         for st in steps {
@@ -92,13 +90,29 @@ pub fn child_main(args: &[String]) -> i32 {
                         say("PROCESSED");
                     }
                 }
-                'I' => {
-                    let op = bchain[imported].clone();
-                    imported += 1;
+                'I' | 'Y' => {
+                    // I: the next operation of B with a body; Y: the next operation of B without
+                    // a body (accepted, never forwarded, acknowledged by the stream itself)
+                    let op = b_op(b_seq, b_last, st == 'I');
                     let id = op.hash;
                     let imp = tx.import(futures_util::stream::iter(vec![op])).await.expect("import");
                     let _ = imp.await;
-                    say(&format!("IMPORTED {id}"));
+                    if st == 'I' {
+                        say(&format!("IMPORTED {id}"));
+                    } else {
+                        say(&format!("SYSTEM-OPERATION {} {b_seq}", key_b().verifying_key().to_hex()));
+                    }
+                    b_last = Some(id);
+                    b_seq += 1;
+                }
+                'X' => {
+                    // a body-less operation of B that ingest must reject: it skips a sequence
+                    // number (gap) and so cannot link to the log's tip
+                    let op = b_op(b_seq + 1, Some(Hash::digest(b"not the tip")), false);
+                    let id = op.hash;
+                    let imp = tx.import(futures_util::stream::iter(vec![op])).await.expect("import");
+                    let _ = imp.await;
+                    say(&format!("OFFERED-INVALID {id}"));
                 }
                 'R' => loop {
                     match tokio::time::timeout(Duration::from_millis(700), rx.next()).await {
@@ -114,6 +128,22 @@ pub fn child_main(args: &[String]) -> i32 {
                         }
                     }
                 },
+                'B' => {
+                    // acknowledge the two oldest received events concurrently
+                    if acked + 2 <= received.len() {
+                        let (i1, i2) = (received[acked], received[acked + 1]);
+                        let (r1, r2) = tokio::join!(rx.ack(i1), rx.ack(i2));
+                        if r1.is_ok() {
+                            say(&format!("ACKED {i1}"));
+                        }
+                        if r2.is_ok() {
+                            say(&format!("ACKED {i2}"));
+                        }
+                        acked += 2;
+                    } else {
+                        say("ACK-NOTHING");
+                    }
+                }
                 'A' => {
                     if acked < received.len() {
                         let id = received[acked];
@@ -321,6 +351,11 @@ fn run_case(dir: &str, n: u64, policy: &str, hist: &str, k: usize, kind: &str) -
     for id in rset.difference(&eset) {
         out.violations.push(("replay/acknowledged-operation-replayed".into(), format!("{}: operation {}… was replayed although the persisted cursor {:?} covers it", out.desc, &id[..8], view.cursor)));
     }
+    for id in grab("OFFERED-INVALID ") {
+        if view.stored.values().any(|(h, _)| *h == id) {
+            out.violations.push(("ingest/invalid-operation-stored".into(), format!("{}: the gap operation {}… was stored", out.desc, &id[..8])));
+        }
+    }
     // per-author order
     let order_of = |id: &String| view.stored.iter().find(|(_, v)| &v.0 == id).map(|(k, _)| k.clone());
     let mut last: BTreeMap<String, u32> = BTreeMap::new();
@@ -348,6 +383,19 @@ fn run_case(dir: &str, n: u64, policy: &str, hist: &str, k: usize, kind: &str) -
     } else {
         // explicit: everything stored with a body and not covered by a returned ack must come back
         let mut acked_height: BTreeMap<String, u32> = BTreeMap::new();
+        // an accepted body-less operation is acknowledged by the stream itself: "a later operation
+        // of the same log was acknowledged" for everything below it
+        for l in grab("SYSTEM-OPERATION ") {
+            let mut it = l.split(' ');
+            if let (Some(a), Some(Ok(sq))) = (it.next(), it.next().map(|x| x.parse::<u32>())) {
+                if view.stored.contains_key(&(a.to_string(), sq)) {
+                    let e = acked_height.entry(a.to_string()).or_insert(sq);
+                    if *e < sq {
+                        *e = sq;
+                    }
+                }
+            }
+        }
         for id in &acked {
             if let Some((a, s)) = order_of(id) {
                 let e = acked_height.entry(a).or_insert(s);
@@ -374,8 +422,12 @@ pub fn run(mut rep: Report) -> i32 {
     let thorough = rep.thorough();
     let max_len = if thorough { 5 } else { 3 };
     // quick: all histories up to length 2 plus eight length-3 histories around receive/ack
-    let quick_filter = |h: &str| h.len() <= 2 || ["PRA", "IRA", "pRA", "PPR", "PIR", "IPR", "PRP", "IRI"].contains(&h);
-    rep.rule = format!("every history of length <= {max_len} over {{P publish+await processing, p publish without awaiting, I import an operation of a second author, R receive one event, A acknowledge the oldest received event}} x both AckPolicy values x every crash point k (after each prefix) x {{orderly drop, abort()}}; histories are reduced to those whose steps are all effective (an R/A with nothing to receive/ack is skipped); child process on a file-backed database, then database inspection and a re-opened node streaming from the frontier; non-trivial = case with a non-empty replay after the application had received or acknowledged something");
+    let has_xy = |h: &str| h.contains('X') || h.contains('Y') || h.contains('B');
+    let quick_filter = |h: &str| (h.len() <= 2 && !has_xy(h)) || ["PRA", "IRA", "pRA", "PPR", "PIR", "IPR", "PRP", "IRI", "X", "Y", "IX", "IY", "XI", "YI", "IRX", "IYI", "PIRRB", "PPRRB"].contains(&h);
+    // thorough: histories with an invalid (X) or a body-less system operation (Y) up to length 4
+    // (two concurrent acknowledgements, B, need two received events: those histories have length 5 and end in B)
+    let thorough_filter = |h: &str| !has_xy(h) || h.len() <= 4 || (h.ends_with('B') && h.matches('B').count() == 1 && !h.contains('X') && !h.contains('Y'));
+    rep.rule = format!("every history of length <= {max_len} over {{P publish+await processing, p publish without awaiting, I import an operation of a second author, R receive one event, A acknowledge the oldest received event, X import a body-less operation of the second author that ingest rejects (sequence gap), Y import a valid body-less (system-level) operation of the second author, B acknowledge the two oldest received events concurrently}} (X/Y histories up to length 4, B as last step) x both AckPolicy values x every crash point k (after each prefix) x {{orderly drop, abort()}}; histories are reduced to those whose steps are all effective (an R/A with nothing to receive/ack is skipped); child process on a file-backed database, then database inspection and a re-opened node streaming from the frontier; non-trivial = case with a non-empty replay after the application had received or acknowledged something");
     let dir = if std::path::Path::new("/dev/shm").is_dir() { "/dev/shm".to_string() } else { std::env::temp_dir().display().to_string() };
     // enumerate histories (canonical: R only if something can be pending, A only if something received and unacked)
     let mut hists: Vec<String> = vec![];
@@ -388,8 +440,11 @@ pub fn run(mut rep: Report) -> i32 {
         }
         let produced = cur.chars().filter(|c| "PpI".contains(*c)).count();
         let recv = cur.chars().filter(|c| *c == 'R').count();
-        let ack = cur.chars().filter(|c| *c == 'A').count();
+        let ack = cur.chars().map(|c| match c { 'A' => 1, 'B' => 2, _ => 0 }).sum::<usize>();
         for s in STEPS {
+            if s == 'B' && ack + 2 > recv {
+                continue;
+            }
             if s == 'R' && recv >= produced {
                 continue;
             }
@@ -401,16 +456,17 @@ pub fn run(mut rep: Report) -> i32 {
             cur.pop();
         }
     }
-    genh(&mut String::new(), max_len, &mut hists);
+    genh(&mut String::new(), max_len.max(5), &mut hists);
+    hists.retain(|h| h.len() <= max_len || (h.len() == 5 && h.ends_with('B')));
     // a crash after prefix k of history h is the same case as the full history h[..k] crashed at its
     // end: enumerate every history once, crashed at its end
     let mut cases: Vec<(String, String, String)> = vec![];
     for policy in ["explicit", "automatic"] {
         for h in &hists {
-            if !thorough && !quick_filter(h) {
+            if (!thorough && !quick_filter(h)) || (thorough && !thorough_filter(h)) {
                 continue;
             }
-            if policy == "automatic" && h.contains('A') {
+            if policy == "automatic" && (h.contains('A') || h.contains('B')) {
                 continue;
             }
             for kind in ["drop", "abort"] {
